@@ -17,15 +17,18 @@ contract('Setting.getNumber', trusted=True, params={'self': 'opaque:Setting'}, r
 contract('Endpoint.getAddress', trusted=True, params={'self': 'opaque:Endpoint'}, returns='int', modifies=[],
          ensures=['result == EPADDR(self)', 'result >= 0 and result < 256'], raises={})
 contract('UsbDevice.open', trusted=True, params={'self': 'opaque:UsbDevice'}, returns='opaque:Handle',
-         modifies=['G.topen', 'G.session', 'G.dev', 'G.rpos', 'G.now', 'G.usb_claimed'],
-         ensures=['G.topen', 'G.session == old(G.session) + 1', 'G.rpos == 0', 'G.now >= old(G.now)', 'isnone(G.usb_claimed)'],
+         modifies=['G.topen', 'G.session', 'G.dev', 'G.rpos', 'G.now', 'G.usb_claimed', 'G.usb_kd'],
+         ensures=['G.topen', 'G.session == old(G.session) + 1', 'G.rpos == 0', 'G.now >= old(G.now)', 'isnone(G.usb_claimed)',
+                  "implies(PLATFORM == 'Windows', not G.usb_kd)"],      # libusb: no kernel driver handling on Windows
          raises={'usb1.USBError': ['G.session == old(G.session)', 'G.now >= old(G.now)', 'G.topen == old(G.topen)']})
 contract('UsbDevice.getSerialNumber', trusted=True, params={'self': 'opaque:UsbDevice'}, returns='str', modifies=[], ensures=[], raises={'usb1.USBError': []})
-contract('Handle.kernelDriverActive', trusted=True, params={'self': 'opaque:Handle', 'interface': 'int'}, returns='bool', modifies=[], ensures=[],
-         raises={'usb1.USBErrorNotFound': [], 'usb1.USBError': []})
-contract('Handle.detachKernelDriver', trusted=True, params={'self': 'opaque:Handle', 'interface': 'int'}, modifies=[], ensures=[],
-         raises={'usb1.USBErrorNotFound': [], 'usb1.USBError': []})
+contract('Handle.kernelDriverActive', trusted=True, params={'self': 'opaque:Handle', 'interface': 'int'}, returns='bool', modifies=[],
+         ensures=['result == G.usb_kd'], raises={'usb1.USBErrorNotFound': ['not G.usb_kd'], 'usb1.USBError': []})
+contract('Handle.detachKernelDriver', trusted=True, params={'self': 'opaque:Handle', 'interface': 'int'}, modifies=['G.usb_kd'], ensures=['not G.usb_kd'],
+         raises={'usb1.USBErrorNotFound': ['not G.usb_kd'], 'usb1.USBError': []})
+# libusb: claiming an interface a kernel driver is bound to fails with LIBUSB_ERROR_BUSY -- the caller has to have looked (and detached) first
 contract('Handle.claimInterface', trusted=True, params={'self': 'opaque:Handle', 'interface': 'int'}, modifies=['G.usb_claimed'],
+         requires=[('C20', 'no-kernel-driver-bound-any-more', 'not G.usb_kd')],
          ensures=['same(G.usb_claimed, interface)'], raises={'usb1.USBError': ['same(G.usb_claimed, old(G.usb_claimed))']})
 contract('Handle.releaseInterface', trusted=True, params={'self': 'opaque:Handle', 'interface': 'opt[int]'}, modifies=['G.usb_claimed'],
          ensures=['isnone(G.usb_claimed)'], raises={'usb1.USBError': []})
@@ -103,7 +106,7 @@ contract('UsbTransport.connect', real={'sync': USB + 'connect'}, twins=('sync',)
          locals={'read_endpoint': 'opt[int]', 'write_endpoint': 'opt[int]', 'address': 'int'},
          props=['C20'],
          modifies=['self._transport', 'self._read_endpoint', 'self._write_endpoint', 'self._interface_number', 'G.topen', 'G.session', 'G.dev', 'G.rpos',
-                   'G.now', 'G.usb_claimed'],
+                   'G.now', 'G.usb_claimed', 'G.usb_kd'],
          ensures=[('C20', 'claims-the-ADB-interface-on-the-handle-just-opened', 'same(G.usb_claimed, IFACE(self._setting)) and not isnone(self._transport) and '
                                                                                'same(self._interface_number, IFACE(self._setting))'),
                   ('C20', 'IN-endpoint-for-reads-OUT-endpoint-for-writes',
